@@ -540,7 +540,6 @@ func assertGuarded(ta *ssa.TypeAssert) bool {
 	return ok
 }
 
-
 func c16Extra(c *Ctx) {
 	c.rule("C16-R8", "ATOM/ORD: (a) a room is created in the manager's table only after looking the same name up under the same exclusive hold of RoomManager.mu (check and insert in one critical section: two first joins cannot each create a Room and lose one's members); (b) a connection is handed to the hub's register channel synchronously, before its read pump is started, so its unregister can never overtake its register and leave a dead connection registered for good; (c) Room objects are not unlinked from the manager's table by running code while a join is lookup-then-add in two critical sections (the unlinking functions have no non-test caller, or the join holds RoomManager.mu across both steps)")
 	// (a)
